@@ -26,6 +26,7 @@ func main() {
 	workers := flag.Int("workers", 8, "")
 	tables := flag.String("tables", "", "write the FSM tables of the tree under test as JSON and exit")
 	fast := flag.Bool("fast", true, "compressed waits")
+	retx := flag.Duration("retransmit", time.Hour, "retransmission interval of opening_tx_broadcasted (C22 runs use a few ms)")
 	flag.Parse()
 	if *tables != "" {
 		b, _ := json.MarshalIndent(swap.VerifTables(), "", " ")
@@ -36,7 +37,7 @@ func main() {
 	}
 	if *fast {
 		// the claim-payment retry loop gets an unbounded time budget; the simulated chain ends it after 12 attempts (chain.go)
-		swap.VerifSetTiming(true, time.Hour, 100*time.Microsecond, time.Hour)
+		swap.VerifSetTiming(true, time.Hour, 100*time.Microsecond, *retx)
 	}
 	f, err := os.Open(*in)
 	if err != nil {
